@@ -1,5 +1,7 @@
 package bebop
 
+import "strings"
+
 func (f File) customRecordTypes() map[string]struct{} {
 	out := make(map[string]struct{})
 	for _, st := range f.Structs {
@@ -20,6 +22,29 @@ func (f File) customRecordTypes() map[string]struct{} {
 		}
 	}
 	return out
+}
+
+// enumSizes maps every enum name to the wire size of its underlying integer.
+func (f File) enumSizes() map[string]uint8 {
+	out := make(map[string]uint8)
+	for _, en := range f.Enums {
+		sz := fixedSizeTypes[en.SimpleType]
+		out[en.Name] = sz
+		if en.Namespace != "" {
+			out[strings.TrimPrefix(en.Name, en.Namespace+".")] = sz
+		}
+	}
+	return out
+}
+
+// fixedSize reports the wire size of typ if all its values share one: the
+// fixed size primitives, and enums, which are written as their integer type.
+func (gs GenerateSettings) fixedSize(typ string) (uint8, bool) {
+	if sz, ok := fixedSizeTypes[typ]; ok {
+		return sz, true
+	}
+	sz, ok := gs.enumSizes[typ]
+	return sz, ok
 }
 
 func (f File) usedTypes() map[string]bool {
